@@ -8,7 +8,14 @@ CONSTANTS Lim,        \* limits record
           Keys,       \* attribute keys ("" = invalid)
           Vals,       \* attribute values: records [t, x]
           MaxList,    \* max attributes per SetAttributes call
-          MaxSteps    \* bound on calls per span
+          MaxSteps,   \* bound on calls per span
+          EvKeys,     \* AddEvent: the caller's attribute key lists (duplicates allowed)
+          ErrKeys,    \* RecordError: the caller's attribute key lists
+          EvTs,       \* event timestamps: "" = none given, otherwise an explicit WithTimestamp
+          Stacks,     \* RecordError: WithStackTrace values
+          LinkCls,    \* link classes [valid, tst, n] for AddLink and for the links given at Start
+          UseStart,   \* TRUE: the span is created by an explicit Start(attrs, links) step
+          StartAttrMax, StartLinkMax   \* bounds on the Start option lists
 
 VARIABLES st, steps, act
 vars == <<st, steps, act>>
@@ -18,26 +25,36 @@ Lists == UNION {[1..n -> Attrs] : n \in 1..MaxList}
 
 OpSet ==
   (IF "SetAttributes" \in Ops THEN {[op |-> "SetAttributes", attrs |-> l] : l \in Lists} ELSE {})
-  \cup (IF "AddEvent" \in Ops THEN {[op |-> "AddEvent", name |-> nm, n |-> n] : nm \in {"e1", "e2"}, n \in 0..2} ELSE {})
-  \cup (IF "RecordError" \in Ops THEN {[op |-> "RecordError", n |-> n] : n \in 0..1} ELSE {})
-  \cup (IF "AddLink" \in Ops THEN {[op |-> "AddLink", valid |-> b, n |-> n] : b \in BOOLEAN, n \in 0..2} ELSE {})
+  \cup (IF "AddEvent" \in Ops THEN {[op |-> "AddEvent", name |-> nm, ts |-> t, keys |-> ks] : nm \in {"e1", "e2"}, t \in EvTs, ks \in EvKeys} ELSE {})
+  \cup (IF "RecordError" \in Ops THEN {[op |-> "RecordError", nilerr |-> FALSE, stack |-> b, ts |-> t, keys |-> ks] : b \in Stacks, t \in EvTs, ks \in ErrKeys}
+                                       \cup {[op |-> "RecordError", nilerr |-> TRUE, stack |-> FALSE, ts |-> "", keys |-> <<>>]} ELSE {})
+  \cup (IF "AddLink" \in Ops THEN {[op |-> "AddLink", valid |-> l.valid, tst |-> l.tst, n |-> l.n] : l \in LinkCls} ELSE {})
   \cup (IF "SetStatus" \in Ops THEN {[op |-> "SetStatus", code |-> c, desc |-> d] : c \in {"Unset", "Error", "Ok"}, d \in {"", "d1", "d2"}} ELSE {})
   \cup (IF "SetName" \in Ops THEN {[op |-> "SetName", name |-> nm] : nm \in {"n1", "n2"}} ELSE {})
   \cup (IF "End" \in Ops THEN {[op |-> "End"]} ELSE {})
+  \cup (IF "Peek" \in Ops THEN {[op |-> "Peek"]} ELSE {})
 
-Init == st = Empty /\ steps = 0 /\ act = [op |-> "Init"]
+StartOps == {[op |-> "Start", attrs |-> a, links |-> l] :
+                a \in {<<>>} \cup UNION {[1..n -> Attrs] : n \in 1..StartAttrMax},
+                l \in {<<>>} \cup UNION {[1..n -> LinkCls] : n \in 1..StartLinkMax}}
+
+Init == st = (IF UseStart THEN Unstarted ELSE Empty) /\ steps = 0 /\ act = [op |-> "Init"]
+DoStart(o) == /\ st' = Apply(Lim, st, o)
+              /\ act' = o
+              /\ UNCHANGED steps
 Step(o) == /\ steps < MaxSteps
+           /\ st.started
            /\ st' = Apply(Lim, st, o)
            /\ steps' = steps + 1
            /\ act' = o
-Next == \E o \in OpSet : Step(o)
+Next == (~st.started /\ \E o \in StartOps : DoStart(o)) \/ (\E o \in OpSet : Step(o))
 Spec == Init /\ [][Next]_vars
 
 View == <<st, steps>>
 EmitEdge == PrintT("EDGE " \o ToJson([from |-> st, act |-> act', to |-> st']))
 
 Inv == /\ KeysUnique(st) /\ CountBound(Lim, st) /\ NoInvalidKey(st) /\ LengthBound(Lim, st)
-       /\ DescOnlyForError(st)
+       /\ DescOnlyForError(st) /\ NoIgnorableLink(st)
 (* accounting: everything offered is either held, an update, or counted dropped -- checked as an
    action property: dropped never decreases, attrs keys only grow, earliest keys kept in place *)
 KeysKept == [][\A i \in 1..Len(st.attrs) : i <= Len(st'.attrs) /\ st'.attrs[i].k = st.attrs[i].k]_vars
